@@ -49,6 +49,8 @@ class MWorld(dd.World):
         self.caps["flit"] = ("file", None, lit)
         self.back[(None, lit)] = {"id": "flit", "type": "file", "w": False}
         self.by_content = {v: FILE_OF[k] for k, v in CONTENTS.items()}
+        # the unknown cap of dir_driver's table, as an immutable directory hands it back
+        self.back[(None, b"imm.x-tahoe-future-cap:ro1")] = {"id": "u1", "type": "unknown", "w": False}
 
     def known(self, cid):
         return cid in self.caps
@@ -294,7 +296,9 @@ class OpsGen(dd.C20Gen):
                 else:
                     break
             else:
-                absent = [n for n in self.names if norm(n) not in obs[cur]] or self.names
+                absent = [n for n in self.names if norm(n) not in obs[cur]]
+                if not absent:
+                    break
                 path.append(rng.choice(absent))
                 for _ in range(rng.choice([0, 0, 1])):
                     path.append(rng.choice(self.names))
@@ -373,6 +377,299 @@ def run_ops(args, inp, rng):
             w.close()
             shutil.rmtree(wd, ignore_errors=True)
     return traces
+
+
+# ================================================================ graph mode: deep-check and the access blacklist
+K_, N_ = 1, 2
+
+
+class CWorld:
+    """One graph of the vocabulary of DeepTraverse.tla built from real objects: mutable directories (cycles through
+    set_children), immutable / literal directories bottom-up, real CHK files and real mutable files (shares on the
+    servers), literal files and unknown caps; observed through `client` (a real _Client: NodeMaker + Blacklist)."""
+    def __init__(self, g, client, graph, rng, tag):
+        from allmydata.interfaces import MDMF_VERSION, SDMF_VERSION
+        from allmydata.mutable.publish import MutableData
+        self.g, self.c, self.nm, self.graph = g, client, g.nodemaker, graph
+        types = graph["type"]
+        self.caps, self.back, self.si = {}, {}, {}
+        pending = [o for o in types if types[o] in ("idir", "litdir")]
+        for o, t in types.items():
+            if t == "dir":
+                node = g.run(self.nm.create_new_mutable_directory(version=rng.choice([SDMF_VERSION, MDMF_VERSION])))
+                self.caps[o] = {"w": node.get_uri(), "r": node.get_readonly_uri()}
+                self.si[o] = node.get_storage_index()
+            elif t == "mfile":
+                node = g.run(self.nm.create_mutable_file(MutableData(b"mutable file %s %s" % (tag, o.encode())),
+                                                         version=rng.choice([SDMF_VERSION, MDMF_VERSION])))
+                self.caps[o] = {"w": node.get_uri(), "r": node.get_readonly_uri()}
+                self.si[o] = node.get_storage_index()
+            elif t == "file":
+                res = g.run(g.uploader.upload(upload.Data(b"immutable file %s %s / " % (tag, o.encode()) * 5, convergence=b"graph")))
+                self.caps[o] = {"w": None, "r": res.get_uri()}
+                self.si[o] = uri_mod.from_string(res.get_uri()).get_storage_index()
+            elif t == "lit":
+                self.caps[o] = {"w": None, "r": uri_mod.LiteralFileURI(b"L" + o.encode()).to_string()}
+            elif t == "unk":
+                self.caps[o] = {"w": None, "r": b"ro.x-tahoe-future-cap:" + o.encode()}
+        while pending:
+            progress = False
+            for o in list(pending):
+                ks = graph["kids"][o]
+                if all(x["to"] in self.caps for x in ks):
+                    children = {dd.gname(x["name"]): (self.nm.create_from_cap(None, self.caps[x["to"]]["r"]), {}) for x in ks}
+                    if types[o] == "idir":      # pad the contents beyond the literal threshold, with a unique tag
+                        children["pad"] = (self.nm.create_from_cap(None, uri_mod.LiteralFileURI(b"pad" + o.encode()).to_string()),
+                                           {"pad": "x" * 60, "tag": tag.decode()})
+                    node = g.run(self.nm.create_immutable_directory(children))
+                    kind = node.get_uri().split(b":")[1]
+                    if kind != (b"DIR2-CHK" if types[o] == "idir" else b"DIR2-LIT"):
+                        raise RuntimeError("object %s came out as %r" % (o, kind))
+                    self.caps[o] = {"w": None, "r": node.get_uri()}
+                    if types[o] == "idir":
+                        self.si[o] = node.get_storage_index()
+                    pending.remove(o)
+                    progress = True
+            if not progress:
+                raise RuntimeError("cyclic immutable directories in the graph")
+        for o, c in self.caps.items():
+            if c["w"]:
+                self.back[c["w"]] = (o, "w")
+            self.back.setdefault(c["r"], (o, "r"))
+        for o, t in types.items():
+            if t == "dir" and graph["kids"][o]:
+                ents = {}
+                for x in graph["kids"][o]:
+                    c = self.caps[x["to"]]
+                    ents[dd.gname(x["name"])] = (c["w"], c["r"]) if x["lvl"] == "w" else (None, c["r"])
+                g.run(self.nm.create_from_cap(self.caps[o]["w"]).set_children(ents))
+        if any(t == "idir" for t in types.values()):
+            n = len(types)
+            for o in [x for x, t in types.items() if t == "idir"]:
+                n += 1
+                po = "p%d" % n
+                types[po] = "lit"
+                graph["kids"][po] = []
+                graph["kids"][o].append({"name": 99, "to": po, "lvl": "r"})
+                cap = uri_mod.LiteralFileURI(b"pad" + o.encode()).to_string()
+                self.caps[po] = {"w": None, "r": cap}
+                self.back[cap] = (po, "r")
+        self.fn = client.blacklist.blacklist_fn
+
+    # ---- ground truth the harness controls
+    def shares_left(self, o):
+        return sum(len(v) for v in self.g.shares(self.si[o]).values()) if o in self.si else N_
+
+    def damage(self, o, left):
+        files = [p for srv, d in sorted(self.g.shares(self.si[o]).items()) for shnum, p in sorted(d.items())]
+        while len(files) > left:
+            os.remove(files.pop())
+        return self.shares_left(o)
+
+    def blwrite(self, ids, mt):
+        from allmydata.util import base32
+        with open(self.fn, "wb") as f:
+            f.write(b"# written by dirops_driver\n")
+            for o in ids:
+                f.write(base32.b2a(self.si[o]) + b" harness says no to " + o.encode() + b"\n")
+        os.utime(self.fn, (1000 + mt, 1000 + mt))
+
+    def blremove(self):
+        if os.path.exists(self.fn):
+            os.remove(self.fn)
+
+    # ---- observation through the gateway
+    def node(self, o, lvl):
+        c = self.caps[o]
+        return self.c.create_node_from_uri(c["w"] if (lvl == "w" and c["w"]) else None, None if (lvl == "w" and c["w"]) else c["r"])
+
+    def obj_of_cap(self, cap):
+        return self.back.get(cap, ("?" + repr(cap), "?"))
+
+    def name_int(self, s):
+        return 99 if s == "pad" else int(s)
+
+    def observe(self, e):
+        from allmydata.blacklist import ProhibitedNode
+        g = self.g
+        ev = e["ev"]
+        if ev in ("access", "read", "list"):
+            node = self.node(e["obj"], e.get("lvl", "r"))
+            proh, isdir = isinstance(node, ProhibitedNode), bool(IDirectoryNode.providedBy(node))
+            if ev == "access":
+                e["proh"], e["isdir"] = proh, isdir
+            elif ev == "read":
+                if isdir:
+                    e["st"], _ = dd.exc_name(lambda: g.run(node.list()))
+                elif node.is_mutable():
+                    e["st"], _ = dd.exc_name(lambda: g.run(node.download_best_version()))
+                else:
+                    e["st"], _ = dd.exc_name(lambda: g.run(download_to_data(node)))
+            else:
+                e["entries"] = []
+                if not isdir:
+                    e["st"] = "prohibited" if proh else "notdir"
+                else:
+                    e["st"], children = dd.exc_name(lambda: g.run(node.list()))
+                    if e["st"] == "ok":
+                        e["entries"] = [{"name": self.name_int(n), "to": self.obj_of_cap(ch.get_uri())[0], "proh": isinstance(ch, ProhibitedNode)}
+                                        for n, (ch, md) in sorted(children.items())]
+            return e
+        root = self.node(self.graph["root"], e["via"])
+        if not IDirectoryNode.providedBy(root):
+            e["st"] = "prohibited" if isinstance(root, ProhibitedNode) else "notdir"
+            if ev == "path":
+                e["obj"], e["proh"] = "none", False
+            elif ev == "manifest":
+                e["vis"] = []
+            else:
+                e.update({"checked": 0, "healthy": 0, "unhealthy": 0, "unrecoverable": 0, "results": [],
+                          "stats": {"dirs": 0, "files": 0, "imm": 0, "lit": 0, "mut": 0, "unk": 0, "maxkids": 0}})
+            return e
+        if ev == "path":
+            e["st"], node = dd.exc_name(lambda: g.run(root.get_child_at_path([dd.gname(p) if p != 99 else "pad" for p in e["path"]])))
+            e["obj"], e["proh"] = "none", False
+            if e["st"] == "ok":
+                e["obj"], e["proh"] = self.obj_of_cap(node.get_uri())[0], isinstance(node, ProhibitedNode)
+        elif ev == "manifest":
+            e["st"], res = dd.exc_name(lambda: g.run(root.build_manifest().when_done()))
+            e["vis"] = []
+            if e["st"] == "ok":
+                for (path, cap) in res["manifest"]:
+                    obj, lvl = self.obj_of_cap(cap)
+                    e["vis"].append({"path": [self.name_int(p) for p in path], "obj": obj, "lvl": lvl})
+        elif ev == "deepcheck":
+            e["st"], res = dd.exc_name(lambda: g.run(root.start_deep_check(verify=e["verify"]).when_done()))
+            e.update({"checked": 0, "healthy": 0, "unhealthy": 0, "unrecoverable": 0, "results": [],
+                      "stats": {"dirs": 0, "files": 0, "imm": 0, "lit": 0, "mut": 0, "unk": 0, "maxkids": 0}})
+            if e["st"] == "ok":
+                c = res.get_counters()
+                e.update({"checked": c["count-objects-checked"], "healthy": c["count-objects-healthy"],
+                          "unhealthy": c["count-objects-unhealthy"], "unrecoverable": c["count-objects-unrecoverable"]})
+                e["results"] = [{"path": [self.name_int(p) for p in path], "healthy": bool(cr.is_healthy()), "recoverable": bool(cr.is_recoverable())}
+                                for path, cr in sorted(res.get_all_results().items())]
+                d = res.get_stats()
+                e["stats"] = {"dirs": d["count-directories"], "files": d["count-files"], "imm": d["count-immutable-files"],
+                              "lit": d["count-literal-files"], "mut": d["count-mutable-files"], "unk": d["count-unknown"],
+                              "maxkids": d["largest-directory-children"]}
+        else:
+            raise ValueError(ev)
+        return e
+
+
+def graph_script(rng, graph, steps):
+    """inputs only: what to write into the blacklist, what to damage, what to ask the gateway"""
+    types, kids, root = graph["type"], graph["kids"], graph["root"]
+    listable = [o for o, t in types.items() if t in ("dir", "idir", "file", "mfile")]
+    readable = [o for o, t in types.items() if t != "unk"]
+    dirs = [o for o, t in types.items() if t in ("dir", "idir", "litdir")]
+    lvl = lambda: rng.choice(["w", "r"])
+
+    listed = set()       # everything the script ever wrote into the blacklist
+
+    def some_path():
+        path, cur = [], root
+        for _ in range(rng.choice([1, 2, 2, 3, 4])):
+            ks = kids.get(cur) or []
+            if not ks or rng.random() < 0.08:
+                path.append(rng.choice([1, 7, 12]))
+                break
+            # only through directories (a path through a file is the probe of mode ops)
+            k = rng.choice(ks)
+            path.append(k["name"])
+            if types[k["to"]] not in ("dir", "idir", "litdir") or k["to"] in listed:
+                break               # nor through a directory that was ever blacklisted (probe "path_through_prohibited_dir")
+            cur = k["to"]
+        return path
+
+    evs = [{"ev": "deepcheck", "via": "w", "verify": False}, {"ev": "manifest", "via": lvl()}]
+    mt = 0
+    for _ in range(steps):
+        x = rng.random()
+        if x < 0.17:
+            r = rng.random()
+            mt = mt + rng.choice([1, 1, 2, 5]) if r < 0.8 else (mt if r < 0.9 else max(1, mt - 1))
+            mt = max(mt, 1)
+            pool = [o for o in listable if o != root or rng.random() < 0.08]
+            ids = [o for o in pool if rng.random() < min(0.6, 1.5 / max(1, len(pool)))]
+            listed.update(ids)
+            evs.append({"ev": "blwrite", "ids": ids, "mt": mt})
+        elif x < 0.21:
+            evs.append({"ev": "blremove"})
+        elif x < 0.31 and listable:
+            o = rng.choice(listable)
+            evs.append({"ev": "damage", "obj": o, "left": rng.choice([1, 1, 0]) if types[o] in ("file", "mfile") else 1})
+        elif x < 0.45:
+            evs.append({"ev": "access", "obj": rng.choice(listable + readable), "lvl": lvl()})
+        elif x < 0.57:
+            evs.append({"ev": "read", "obj": rng.choice(listable + readable), "lvl": lvl()})
+        elif x < 0.67:
+            evs.append({"ev": "list", "obj": rng.choice(dirs), "lvl": lvl()})
+        elif x < 0.79:
+            evs.append({"ev": "path", "via": lvl(), "path": some_path()})
+        elif x < 0.89:
+            evs.append({"ev": "manifest", "via": lvl()})
+        else:
+            evs.append({"ev": "deepcheck", "via": lvl(), "verify": rng.random() < 0.25})
+    evs.append({"ev": "deepcheck", "via": "w", "verify": False})
+    return evs
+
+
+# a directory on the path is prohibited: the documented refusal is FileProhibited (webapi.rst), see notes
+GRAPH_PROBES = {
+    "path_through_prohibited_dir": {
+        "graph": {"type": {"o1": "dir", "o2": "dir", "o3": "lit"}, "root": "o1",
+                  "kids": {"o1": [{"name": 1, "to": "o2", "lvl": "w"}], "o2": [{"name": 1, "to": "o3", "lvl": "r"}], "o3": []}},
+        "events": [{"ev": "blwrite", "ids": ["o2"], "mt": 1}, {"ev": "path", "via": "w", "path": [1, 1]}]},
+}
+
+
+def run_graph(args, inp, rng):
+    jobs = []
+    for gr in (inp or {}).get("graphs", []):
+        jobs.append((gr, None, gr.get("src", "tlc")))
+    for i in range(args.n):
+        jobs.append((dd.seeded_graph(rng, rng.choice([4, 6, 8, 10, 14])), None, "seeded"))
+    if not (inp or {}).get("no_probes"):
+        for name, p in sorted(GRAPH_PROBES.items()):
+            jobs.append((p["graph"], p["events"], "probe:" + name))
+    out = []
+    g, used, wd, nclient = None, 0, None, 0
+    for gi, (graph, events, src) in enumerate(jobs):
+        graph = copy.deepcopy(graph)
+        graph.setdefault("root", "o1")
+        nmut = sum(1 for t in graph["type"].values() if t in ("dir", "mfile"))
+        if g is None or used + nmut > 44:
+            if g is not None:
+                g.close()
+                shutil.rmtree(wd, ignore_errors=True)
+            wd = os.path.join(args.work, "g_%d" % gi)
+            g = Grid(wd, num_servers=N_, k=K_, n=N_, happy=1, seed=args.seed)
+            used = 0
+        used += nmut
+        nclient += 1
+        client = make_full_client(g, i=nclient)        # a fresh gateway (fresh Blacklist) per graph
+        w = CWorld(g, client, graph, rng, b"%d" % gi)
+        h0 = {o: w.shares_left(o) for o in graph["type"]}
+        if events is None:
+            events = graph_script(rng, graph, args.len)
+        recorded = []
+        for e in copy.deepcopy(events):
+            if e["ev"] == "blwrite":
+                w.blwrite(e["ids"], e["mt"])
+            elif e["ev"] == "blremove":
+                w.blremove()
+            elif e["ev"] == "damage":
+                e["left"] = w.damage(e["obj"], e["left"])
+            else:
+                w.observe(e)
+            recorded.append(e)
+        out.append({"consts": {"type": graph["type"], "kids": graph["kids"], "root": graph["root"], "K": K_, "N": N_, "H0": h0},
+                    "events": recorded, "src": src})
+    if g is not None:
+        g.close()
+        shutil.rmtree(wd, ignore_errors=True)
+    return out
 
 
 def main():
